@@ -308,8 +308,8 @@ def guarded_edit(ctx, r, target, sig: str, w: dict, hist: list):
         return edits.random_edit(r, target)
     except Exception as x:
         tb = traceback.extract_tb(x.__traceback__)
-        if tb and not tb[-1].filename.startswith('/verif/'):
-            where = next((f'{fr.name} ({fr.filename.split("/")[-1]}:{fr.lineno})' for fr in reversed(tb) if not fr.filename.startswith('/verif/')), '?')
+        if tb and not tb[-1].filename.startswith(str(common.VERIF) + '/'):
+            where = next((f'{fr.name} ({fr.filename.split("/")[-1]}:{fr.lineno})' for fr in reversed(tb) if not fr.filename.startswith(str(common.VERIF) + '/')), '?')
             ctx.monitor_failure(sig, f'after the edits {hist[-4:]} the document can no longer be walked / copied / read: '
                                      f'{type(x).__name__}: {x} in {where}', dict(w, history=list(hist)))
             raise DocumentUnusable() from x
